@@ -245,7 +245,8 @@ func (m *mavenExtension) init(input string) error {
 // isEmptyMavenElem reports whether is defined to be equivalent
 // to the empty string for the purpose of ordering.
 func isEmptyMavenElem(s string) bool {
-	if s == "0" {
+	// A zero however it is written: 1.00 is 1.
+	if s != "" && strings.Trim(s, "0") == "" {
 		return true
 	}
 	return mavenVersionQualifierOrder[s] == mavenEmptyQualifier
